@@ -90,6 +90,9 @@ def _task(kind, prop, tier, arg=None):
     if kind == 'V':
         from .. import zqrv
         return zqrv.run('bond_ops.qr') if arg != 'svd' else zqrv.run_svd('bond_ops.split_matrix_svd')
+    if kind == 'G':
+        from .. import zhk
+        return zhk.verify(prop, tier)
     if kind == 'K':
         from .. import zkry
         return zkry.verify(prop, tier)
@@ -147,13 +150,15 @@ def _deductive_all(prop, tier='quick'):
     tasks += [('H', prop, tier, name) for name, (mk, props) in zshape.CONTRACTS.items() if prop in props]
     if prop in ('C04', 'C08', 'C09', 'C10'):
         tasks.append(('O', prop, tier, None))
+    if prop == 'C18':
+        tasks.insert(0, ('G', prop, tier, None))
     if prop in ('C14', 'C15', 'C08', 'C10'):
         tasks.insert(0, ('K', prop, tier, None))
     if prop == 'C11':
         tasks.insert(0, ('V', prop, tier, None))
     if prop == 'C12':
         tasks.insert(0, ('V', prop, tier, 'svd'))
-    if len(tasks) <= 4 and prop not in ('C12', 'C13'):
+    if len(tasks) <= 4 and prop not in ('C12', 'C13', 'C18'):
         out = []
         for t in tasks:
             out += _task(*t)
